@@ -314,7 +314,13 @@ class SendFilter(SyncSuite):
         if rng.random() < 0.3:
             # nested filter stack: a second NewFilterFS on top of the first
             sf2 = {}
-            if rng.random() < 0.5:
+            links = [e for e in tree if e["t"] == "hardlink"]
+            if links and rng.random() < 0.5:
+                # the outer filter hides the first name of a hard-link group that the inner filter let through
+                sf2["exclude"] = [rng.choice(links)["ln"]]
+                if rng.random() < 0.6:
+                    op["src"]["kind"] = "disk"
+            elif rng.random() < 0.5:
                 sf2["exclude"] = [hx(p) for p in filt.pattern_list(rng, paths, 0.3)]
             else:
                 sf2["include"] = [hx(p) for p in filt.pattern_list(rng, paths, 0.2)]
